@@ -28,8 +28,7 @@ NON_CANCELLABLE = {
 }
 
 def check(ctx):
-    io_cancel = ctx.prog.fn("may::io::sys::cancel::CancelIoImpl::cancel") is not None or \
-        any("CancelIoImpl as may::cancel::CancelIo>::cancel" in k for k in ctx.prog.fns)
+    io_cancel = any(k.startswith("<may::io::sys::cancel::CancelIoImpl as ") for k in ctx.prog.fns)
     # ---- Cancel::cancel
     CC = C + "::cancel"
     ctx.order(CC, atomic("fetch_or", C + ".state"), Call(r"may::cancel::CancelIo::cancel|<.* as may::cancel::CancelIo>::cancel"), "flag-then-io-cancel",
